@@ -72,7 +72,7 @@ type c02tEnt struct {
 	src  int
 	rid  uint32
 	tag  int
-	rank uint32
+	rank uint64 // LOCAL_PREF<<32 | (2^32-1 - age offset): higher = better; the model's `rank`
 	rej  bool
 	// marked by AdjRib.StaleAll since it was stored
 	stale bool
@@ -81,6 +81,7 @@ type c02tEnt struct {
 type c02tMeta struct {
 	src, tag int
 	rid      uint32
+	lp       uint32
 }
 
 type c02tW struct {
@@ -112,6 +113,14 @@ type c02tW struct {
 	opn      int
 	heldFail map[string]int
 	hot      []*c02tPfx
+	// 0: every announcement has its own LOCAL_PREF (no equal-cost paths); k > 0: k LOCAL_PREF values,
+	// equal-cost paths ordered by a unique age — the multipath sets then hold several paths, also
+	// several of one source (ADD-PATH receive)
+	lpClasses int
+	// consumers of the notification streams, per Loc-RIB table and prefix:
+	// multipath (source, path-id) → LOCAL_PREF, and best path → (source, LOCAL_PREF)
+	mpCons   map[int]map[string]map[[2]int]uint32
+	bestCons map[int]map[string][2]int
 	hist     []string
 }
 
@@ -328,7 +337,10 @@ func (w *c02tW) reset() {
 	w.want = map[int]map[string][]c02tEnt{1: {}, 2: {}, 3: {}, 4: {}, 5: {}}
 	w.acc = map[int]int{3: 0, 4: 0, 5: 0}
 	w.active = []int{1, 2, 3, 4}
+	w.lpClasses = 0
 	w.leak = map[int]map[string]int{1: {}, 2: {}}
+	w.mpCons = map[int]map[string]map[[2]int]uint32{1: {}, 2: {}}
+	w.bestCons = map[int]map[string][2]int{1: {}, 2: {}}
 	w.hist = w.hist[:0]
 	w.o.op("new 1 0")
 	w.o.op("new 2 0")
@@ -352,13 +364,16 @@ func (w *c02tW) fail(class string, format string, a ...any) {
 	w.o.fail(class, map[string]any{"what": fmt.Sprintf(format, a...), "history": w.histTail()})
 }
 
-func (w *c02tW) newPath(p *c02tPfx, src int, rid uint32, rank uint32, withdraw bool) *Path {
+func (w *c02tW) newPath(p *c02tPfx, src int, rid uint32, rank uint64, withdraw bool) *Path {
 	return w.newPathF(c02tFamily(p.fam), p, src, rid, rank, withdraw)
 }
 
-func (w *c02tW) newPathF(fam bgp.Family, p *c02tPfx, src int, rid uint32, rank uint32, withdraw bool) *Path {
+func (w *c02tW) newPathF(fam bgp.Family, p *c02tPfx, src int, rid uint32, rank uint64, withdraw bool) *Path {
 	var attrs []bgp.PathAttributeInterface
+	ts := time.Unix(1700000000, 0)
 	if !withdraw {
+		// the age decides between equal-cost paths of eBGP sources (compareByAge: the older wins)
+		ts = time.Unix(1700000000+int64(0xffffffff-uint32(rank)), 0)
 		attrs = append(attrs, bgp.NewPathAttributeOrigin(0))
 		if p.fam == 4 {
 			nh, _ := bgp.NewPathAttributeNextHop(netip.MustParseAddr("192.0.2.1"))
@@ -367,34 +382,182 @@ func (w *c02tW) newPathF(fam bgp.Family, p *c02tPfx, src int, rid uint32, rank u
 			mp, _ := bgp.NewPathAttributeMpReachNLRI(fam, []bgp.PathNLRI{{NLRI: p.nlri, ID: rid}}, netip.MustParseAddr("2001:db8:ffff::1"))
 			attrs = append(attrs, mp)
 		}
-		attrs = append(attrs, bgp.NewPathAttributeLocalPref(rank))
+		attrs = append(attrs, bgp.NewPathAttributeLocalPref(uint32(rank>>32)))
 	}
-	return NewPath(fam, w.src[src], bgp.PathNLRI{NLRI: p.nlri, ID: rid}, withdraw, attrs, time.Unix(1700000000, 0), false)
+	return NewPath(fam, w.src[src], bgp.PathNLRI{NLRI: p.nlri, ID: rid}, withdraw, attrs, ts, false)
 }
 
 // ---------------------------------------------------------------- operations
 
+// LOCAL_PREF and age of the next announcement, as the model's rank (a strict total order per
+// destination: equal LOCAL_PREFs are ordered by the unique age)
+func (w *c02tW) nextRank(tag int) uint64 {
+	mix := uint32((uint64(tag) * 2654435761) % (1 << 30)) // injective in tag
+	if w.lpClasses == 0 {
+		return uint64(mix+1)<<32 | 0xffffffff
+	}
+	lp := uint32(100 * (1 + w.r.intn(w.lpClasses)))
+	return uint64(lp)<<32 | uint64(0xffffffff-mix%(1<<20))
+}
+
+// the multipath set the op log predicts for a destination: the best path and every path of the same cost
+func (w *c02tW) expectMulti(tab int, p *c02tPfx) map[[2]int]uint32 {
+	l := append([]c02tEnt{}, w.want[tab][p.show]...)
+	sort.Slice(l, func(i, j int) bool { return l[i].rank > l[j].rank })
+	m := map[[2]int]uint32{}
+	for _, e := range l {
+		if e.rank>>32 != l[0].rank>>32 {
+			break
+		}
+		m[[2]int{e.src, int(e.rid)}] = uint32(e.rank >> 32)
+	}
+	return m
+}
+
+func c02tMpStr(m map[[2]int]uint32) string {
+	l := make([]string, 0, len(m))
+	for k, lp := range m {
+		l = append(l, fmt.Sprintf("%d.%d:%d", k[0], k[1], lp))
+	}
+	sort.Strings(l)
+	return strings.Join(l, ",")
+}
+
+// stream: what one TableManager.Update hands to the consumers of the best-path / multipath
+// notification stream (server: dstsToPaths → notifyBestWatcher, FIB) is applied IN ORDER to a
+// consumer table; after every step the consumer must hold exactly the table's multipath set and
+// best path ("the notification stream replayed in order reproduces the best-path table").
+func (w *c02tW) stream(what string, p *c02tPfx, us []*Update) {
+	lt := c02tLoc(p.fam)
+	for _, u := range us {
+		upd, wd := u.GetMultiBestPathDiff(GLOBAL_RIB_NAME)
+		best, _, multi := u.GetChanges(GLOBAL_RIB_NAME, 0, false)
+		w.o.ask("u="+w.pathsStr(upd)+" w="+w.pathsStr(wd), "mpdiff %d", lt)
+		cons := w.mpCons[lt][p.show]
+		if cons == nil {
+			cons = map[[2]int]uint32{}
+			w.mpCons[lt][p.show] = cons
+		}
+		before := c02tMpStr(cons)
+		for _, x := range wd {
+			if m, ok := w.meta[x.root()]; ok {
+				if !x.IsWithdraw {
+					w.fail("c02t-multipath-stream-replay", "%s on %s: the withdraw list holds a path that is not a withdrawal", what, p.pfx)
+				}
+				delete(cons, [2]int{m.src, int(m.rid)})
+			}
+		}
+		for _, x := range upd {
+			if m, ok := w.meta[x.root()]; ok {
+				cons[[2]int{m.src, int(m.rid)}] = m.lp
+			}
+		}
+		if len(upd) > 0 || len(wd) > 0 {
+			w.o.stat("multipath_notifications", 1)
+		}
+		// the table's own multipath set now
+		tbl := map[[2]int]uint32{}
+		d := w.tm.GetDestination(w.newPath(p, 1, 0, 0, true))
+		ans := "nil"
+		if d != nil {
+			mb := d.GetMultiBestPath(GLOBAL_RIB_NAME)
+			ans = "m=" + w.pathsStr(mb)
+			for _, x := range mb {
+				if m, ok := w.meta[x.root()]; ok {
+					tbl[[2]int{m.src, int(m.rid)}] = m.lp
+				}
+			}
+			bySrc := map[int]int{}
+			for k := range tbl {
+				bySrc[k[0]]++
+			}
+			w.o.stat(fmt.Sprintf("multipath_set_size_%d", min(len(tbl), 4)), 1)
+			for _, n := range bySrc {
+				if n > 1 {
+					w.o.stat("multipath_set_with_two_paths_of_one_source", 1)
+					break
+				}
+			}
+		}
+		w.o.ask(ans, "multi %d %s", lt, p.tok)
+		if exp := w.expectMulti(lt, p); c02tMpStr(exp) != c02tMpStr(tbl) {
+			w.fail("c02t-multipath-set", "%s on %s: the table's multipath set is [%s], the op log says [%s]", what, p.pfx, c02tMpStr(tbl), c02tMpStr(exp))
+		}
+		if c02tMpStr(cons) != c02tMpStr(tbl) {
+			w.fail("c02t-multipath-stream-replay", "%s on %s: consumer held [%s], got update=[%s] withdraw=[%s], now holds [%s]; the table's multipath set is [%s] (src.rid:local-pref)",
+				what, p.pfx, before, w.pathsStr(upd), w.pathsStr(wd), c02tMpStr(cons), c02tMpStr(tbl))
+			// resynchronise, so that one lost withdrawal is reported once
+			cons = map[[2]int]uint32{}
+			for k, v := range tbl {
+				cons[k] = v
+			}
+			w.mpCons[lt][p.show] = cons
+		}
+		if multi != nil && len(tbl) > 0 {
+			mm := map[[2]int]uint32{}
+			for _, x := range multi {
+				if m, ok := w.meta[x.root()]; ok {
+					mm[[2]int{m.src, int(m.rid)}] = m.lp
+				}
+			}
+			if c02tMpStr(mm) != c02tMpStr(tbl) {
+				w.fail("c02t-multipath-changes", "%s on %s: GetChanges reports the multipath set [%s], the table has [%s]", what, p.pfx, c02tMpStr(mm), c02tMpStr(tbl))
+			}
+		}
+		// best-path stream
+		if best != nil {
+			if m, ok := w.meta[best.root()]; ok {
+				if best.IsWithdraw {
+					delete(w.bestCons[lt], p.show)
+				} else {
+					w.bestCons[lt][p.show] = [2]int{m.src, int(m.lp)}
+				}
+			}
+			w.o.stat("best_path_notifications", 1)
+		}
+		var tb *[2]int
+		if d != nil {
+			if b := d.GetBestPath(GLOBAL_RIB_NAME, 0); b != nil {
+				if m, ok := w.meta[b.root()]; ok {
+					tb = &[2]int{m.src, int(m.lp)}
+				}
+			}
+		}
+		cb, has := w.bestCons[lt][p.show]
+		if (tb == nil) != !has || (tb != nil && *tb != cb) {
+			w.fail("c02t-best-stream-replay", "%s on %s: after the notification the consumer's best path is %v (present %v), the table's is %v (source, local-pref)", what, p.pfx, cb, has, tb)
+			if tb == nil {
+				delete(w.bestCons[lt], p.show)
+			} else {
+				w.bestCons[lt][p.show] = *tb
+			}
+		}
+	}
+}
+
 func (w *c02tW) announce(p *c02tPfx, src int, rid uint32, rej bool) {
 	w.seq++
 	tag := w.seq
-	rank := uint32((uint64(tag)*2654435761)%(1<<30)) + 1 // injective in tag: a strict total order per destination
+	rank := w.nextRank(tag)
 	w.note("announce %s src=%d rid=%d tag=%d", p.pfx, src, rid, tag)
 	lt := c02tLoc(p.fam)
 	path := w.newPath(p, src, rid, rank, false)
-	w.meta[path] = c02tMeta{src, tag, rid}
+	w.meta[path] = c02tMeta{src, tag, rid, uint32(rank >> 32)}
 	w.o.op("ann %d %s %d %d %d %d 0", lt, p.tok, src, rid, rank, tag)
 	w.movesInPlace(lt, p, src, rid)
+	w.multipathMember(lt, p, src, rid)
 	us := w.tm.Update(path)
 	w.wantPut(lt, p, c02tEnt{src: src, rid: rid, tag: tag, rank: rank}, false)
 	w.recheck()
 	w.holdUpdates(p.show, us)
+	w.stream(fmt.Sprintf("announcement src=%d rid=%d tag=%d", src, rid, tag), p, us)
 	w.checkOthers("announcement", p, src, rid)
 	w.o.stat("op_announce", 1)
 	if src == 1 {
 		at := c02tAdj(p.fam)
 		ap := w.newPath(p, src, rid, rank, false)
 		ap.SetRejected(rej)
-		w.meta[ap] = c02tMeta{src, tag, rid}
+		w.meta[ap] = c02tMeta{src, tag, rid, uint32(rank >> 32)}
 		rj := 0
 		if rej {
 			rj = 1
@@ -463,6 +626,42 @@ func (w *c02tW) movesInPlace(tab int, p *c02tPfx, src int, rid uint32) {
 	}
 }
 
+// input-distribution counter: the operation touches the first / a middle / the last member of a
+// multipath set of two or more, and whether a sibling (same source, other path id) is in the set
+func (w *c02tW) multipathMember(tab int, p *c02tPfx, src int, rid uint32) {
+	l := append([]c02tEnt{}, w.want[tab][p.show]...)
+	sort.Slice(l, func(i, j int) bool { return l[i].rank > l[j].rank })
+	n := 0
+	for n < len(l) && l[n].rank>>32 == l[0].rank>>32 {
+		n++
+	}
+	if n < 2 {
+		return
+	}
+	sibling := false
+	pos := -1
+	for i := 0; i < n; i++ {
+		if l[i].src == src && l[i].rid == rid {
+			pos = i
+		} else if l[i].src == src {
+			sibling = true
+		}
+	}
+	if pos < 0 {
+		return
+	}
+	where := "middle"
+	if pos == 0 {
+		where = "first"
+	} else if pos == n-1 {
+		where = "last"
+	}
+	w.o.stat("op_on_"+where+"_member_of_a_multipath_set", 1)
+	if sibling {
+		w.o.stat("op_on_"+where+"_member_with_a_sibling_of_the_same_source_in_the_set", 1)
+	}
+}
+
 func (w *c02tW) wantPut(tab int, p *c02tPfx, e c02tEnt, adj bool) {
 	l := w.want[tab][p.show]
 	for i, x := range l {
@@ -528,10 +727,12 @@ func (w *c02tW) withdraw(p *c02tPfx, src int, rid uint32, dropped bool) {
 	path.SetDropped(dropped)
 	w.o.op("wd %d %s %d %d %d", lt, p.tok, src, rid, d)
 	w.movesInPlace(lt, p, src, rid)
+	w.multipathMember(lt, p, src, rid)
 	us := w.tm.Update(path)
 	hit := w.wantDel(lt, p, src, rid, false)
 	w.recheck()
 	w.holdUpdates(p.show, us)
+	w.stream(fmt.Sprintf("withdrawal src=%d rid=%d", src, rid), p, us)
 	w.checkOthers("withdrawal", p, src, rid)
 	if hit {
 		if !dropped {
@@ -583,9 +784,11 @@ func (w *c02tW) peerDown(src int) {
 			w.fail("c02t-source-conflated", "peer-down of source %d (%+v) lists the path of source %d (%+v) on %s for withdrawal", src, *w.src[src], m.src, *w.src[m.src], pp)
 		}
 		w.o.op("wd %d %s %d %d 1", c02tLoc(p.fam), p.tok, src, wd.RemoteID())
-		w.tm.Update(wd)
+		w.multipathMember(c02tLoc(p.fam), p, src, wd.RemoteID())
+		us := w.tm.Update(wd)
 		w.wantDel(c02tLoc(p.fam), p, src, wd.RemoteID(), false)
 		w.recheck()
+		w.stream(fmt.Sprintf("peer-down withdrawal src=%d rid=%d", src, wd.RemoteID()), p, us)
 	}
 	// anything of this source left in the oracle map was not produced by the listing: remove it
 	// through the front door so that the difference shows up as a stale path
@@ -883,6 +1086,40 @@ func (w *c02tW) askPaths(tab int, view int) {
 		w.fail("c02t-best-list", "GetBestPathList(view %d) table %d = [%s], the op log says [%s]", view, tab, strings.Join(got, " "), strings.Join(exp, " "))
 	}
 	w.o.ask(w.pathListing(bs), "bests %d %d", tab, view)
+	if view == 0 {
+		// TableManager.GetBestMultiPathList: one multipath set per stored destination
+		ms := w.tm.GetBestMultiPathList(GLOBAL_RIB_NAME, fam)
+		l := make([]string, 0, len(ms))
+		for _, m := range ms {
+			if len(m) == 0 {
+				l = append(l, "empty")
+				continue
+			}
+			_, _, show := c02tTok(nlriToPrefix(m[0].GetNlri()))
+			l = append(l, show+"="+w.pathsStr(m))
+			if pp := w.byShow(show); pp != nil {
+				got := map[[2]int]uint32{}
+				for _, x := range m {
+					if mt, ok := w.meta[x.root()]; ok {
+						got[[2]int{mt.src, int(mt.rid)}] = mt.lp
+					}
+				}
+				if exp := w.expectMulti(tab, pp); c02tMpStr(exp) != c02tMpStr(got) {
+					w.fail("c02t-multipath-set", "GetBestMultiPathList table %d: %s has [%s], the op log says [%s]", tab, show, c02tMpStr(got), c02tMpStr(exp))
+				}
+			}
+		}
+		sort.Strings(l)
+		w.o.ask(fmt.Sprintf("n=%d %s", len(l), strings.Join(l, " ")), "mbests %d", tab)
+		held := ms
+		w.hold("TableManager.GetBestMultiPathList", fmt.Sprintf("table %d", tab), func() string {
+			r := make([]string, len(held))
+			for i, m := range held {
+				r[i] = w.pathsStr(m)
+			}
+			return strings.Join(r, " | ")
+		})
+	}
 	w.hold("TableManager.GetBestPathList", fmt.Sprintf("table %d view %d", tab, view), func() string { return w.pathsStr(bs) })
 }
 
@@ -1197,6 +1434,17 @@ func (w *c02tW) askSelectQ(tab int, nq int, fixed []c02tQ) {
 }
 
 // a route-server view: the address class of one of the history's sources
+func (w *c02tW) byShow(show string) *c02tPfx {
+	for _, fam := range []int{4, 6} {
+		for _, p := range w.pool[fam] {
+			if p.show == show {
+				return p
+			}
+		}
+	}
+	return nil
+}
+
 func (w *c02tW) randView() int { return w.addrClass[w.active[w.r.intn(len(w.active))]] }
 
 // the IPv4-multicast table of the AdjRib (a third family beside the two that also feed the Loc-RIB)
@@ -1213,11 +1461,11 @@ func (w *c02tW) askMC(full bool) {
 func (w *c02tW) mcAnnounce(p *c02tPfx, rid uint32, rej bool) {
 	w.seq++
 	tag := w.seq
-	rank := uint32((uint64(tag)*2654435761)%(1<<30)) + 1
+	rank := w.nextRank(tag)
 	w.note("announce (ipv4-multicast, Adj-RIB-In only) %s rid=%d tag=%d", p.pfx, rid, tag)
 	ap := w.newPathF(bgp.RF_IPv4_MC, p, 1, rid, rank, false)
 	ap.SetRejected(rej)
-	w.meta[ap] = c02tMeta{1, tag, rid}
+	w.meta[ap] = c02tMeta{1, tag, rid, uint32(rank >> 32)}
 	rj := 0
 	if rej {
 		rj = 1
@@ -1252,9 +1500,11 @@ func (w *c02tW) propagate(what string, wds []*Path) {
 			continue
 		}
 		w.o.op("wd %d %s 1 %d 1", c02tLoc(p.fam), p.tok, wd.RemoteID())
-		w.tm.Update(wd)
+		w.multipathMember(c02tLoc(p.fam), p, 1, wd.RemoteID())
+		us := w.tm.Update(wd)
 		w.wantDel(c02tLoc(p.fam), p, 1, wd.RemoteID(), false)
 		w.recheck()
+		w.stream(what+" withdrawal", p, us)
 	}
 }
 
@@ -1501,6 +1751,10 @@ func (w *c02tW) randomHistory(n int) {
 	// router id at two addresses)
 	strata := [][]int{{1, 2, 3, 4}, {1, 5, 6, 7}, {1, 2, 9, 10, 11}, {1, 8, 3, 12}, {5, 6, 2, 9}, {1, 6, 7, 8, 10, 11}}
 	w.active = strata[w.r.intn(len(strata))]
+	// half of the histories have equal-cost paths (1, 2 or 3 LOCAL_PREF values): multipath sets of several
+	// paths, several of one source
+	w.lpClasses = w.r.pick(0, 0, 0, 1, 2, 3)
+	w.o.stat(fmt.Sprintf("history_local_pref_values_%d", w.lpClasses), 1)
 	w.note("sources %v", w.active)
 	w.o.stat(fmt.Sprintf("history_sources_%v", w.active), 1)
 	for i := 0; i < n; i++ {
@@ -1770,15 +2024,59 @@ func (w *c02tW) corpus2() {
 	})
 }
 
+// corpus, third part (class of the seeded change C02-O): multipath x ADD-PATH receive.  One source
+// contributes several equal-cost paths (path ids 0, 1, 2), a second source one more; the first / a
+// middle / the last member of the multipath set is withdrawn, replaced by a cheaper and by an
+// equal path, a better path arrives and leaves, the peer goes down — after every step the stream
+// of GetMultiBestPathDiff / GetChanges replayed on a consumer must give the table's multipath set.
+func (w *c02tW) corpus3() {
+	for _, victim := range []int{0, 1, 2, 3} {
+		victim := victim
+		w.guarded(func() {
+			w.reset()
+			w.lpClasses = 1
+			w.active = []int{1, 2, 5, 6}
+			w.note("corpus 7: multipath set with several paths of one source, member %d withdrawn first", victim)
+			for _, p := range []*c02tPfx{w.pool[4][5], w.colls[0][0]} {
+				w.announce(p, 2, 0, false)
+				w.announce(p, 2, 1, false)
+				w.announce(p, 2, 2, false)
+				w.announce(p, 5, 0, false)
+				w.askAll(true)
+				l := append([]c02tEnt{}, w.want[c02tLoc(p.fam)][p.show]...)
+				sort.Slice(l, func(i, j int) bool { return l[i].rank > l[j].rank })
+				w.withdraw(p, l[victim].src, l[victim].rid, true)
+				w.announce(p, l[victim].src, l[victim].rid, false) // back, with another age
+				w.announce(p, 2, 1, false)                         // implicit replace inside the set
+				w.lpClasses = 3
+				w.announce(p, 6, 0, false) // any cost: may shrink the set to one path, or join it, or stay outside
+				w.announce(p, 2, 2, false)
+				w.withdraw(p, 6, 0, true)
+				w.lpClasses = 1
+				w.announce(p, 2, 2, false)
+				w.askAll(true)
+			}
+			w.peerDown(2)
+			w.peerDown(5)
+			w.askAll(true)
+		})
+	}
+}
+
 func TestVerifC02T(t *testing.T) {
 	o := vOpen(t)
 	defer o.close()
 	w := &c02tW{t: t, o: o, r: &vRand{s: o.seed*7919 + 11}}
+	// use-multiple-paths on: GetChanges / GetMultiBestPathDiff / GetBestMultiPathList are live
+	mpWas := UseMultiplePaths.Enabled
+	UseMultiplePaths.Enabled = true
+	defer func() { UseMultiplePaths.Enabled = mpWas }()
 	w.setup()
 	o.sample(fmt.Sprintf("pool: %d IPv4 + %d IPv6 prefixes, %d collision groups; e.g. %s and %s share key %d",
 		len(w.pool[4]), len(w.pool[6]), len(w.colls), c02tCollisions[0][0], c02tCollisions[0][1], w.colls[0][0].key))
 	w.corpus()
 	w.corpus2()
+	w.corpus3()
 	w.malformedKeys()
 	w.collisionScenarios()
 	histories, steps := 40, 60
